@@ -65,12 +65,21 @@ def c15(tier):
     return [Ob('c01_days_to_date_holds', slices=[{'d': (-2**31, -1)}, {'d': (0, 2**31 - 1)}], note='contract of days_to_date used below')] + \
            [Ob(f, abstractions=A if '_date_set_' in f else ()) for f in fns_of('c15_', 'c15.rs')]
 
+def c05(tier):
+    A = ['days_to_date']
+    A = ['days_to_date', 'date_to_days', 'spec_rd/uf']
+    return [Ob('c01_days_to_date_holds', slices=[{'d': (-2**31, -1)}, {'d': (0, 2**31 - 1)}], note='contract of days_to_date used below'),
+            Ob('c01_date_to_days_holds', note='contract of date_to_days used below'),
+            Ob('oracle_rd_monotone_holds', profiles=('on',), note='oracle sanity', solvers=('cvc5', 'z3new'))] + \
+           [Ob(f, abstractions=A) for f in fns_of('c05_', 'c05.rs')]
+
 PROPS = {
     'C01': {'obligations': c01,
             'bounds': 'all 2^32 day numbers; all (year, month, day) in i32 x u32 x u32; month loop unwound 16 with unwinding assertion',
             'outside': 'nothing inside the property statement; formatting of error messages is not encoded'},
     'C02': {'obligations': c02, 'bounds': 'all 2^32 day numbers; all offsets in (-24h, 24h); all u32 day-of-year arguments', 'outside': 'the rendering of w/q/e/D values into text (std formatting)'},
     'C03': {'obligations': c03, 'bounds': 'all i64 timestamps; all pairs of (day, nanos, offset)', 'outside': ''},
+    'C05': {'obligations': c05, 'bounds': 'all 2^32 days x all u32 counts, Date and DateTime (all times of day, offsets)', 'outside': ''},
     'C06': {'obligations': c06, 'bounds': 'all pairs of (day, nanos, offset); all u32 counts for the add-inverse', 'outside': 'months/years (C07)'},
     'C08': {'obligations': c08, 'bounds': 'all times of day x all u32 counts; all pairs of Times; all Durations', 'outside': ''},
     'C10': {'obligations': c10, 'bounds': 'all instants with a one-day margin at the range ends x all offsets in (-24h, 24h)', 'outside': 'the x/X zone text (C11); Offset::Local (reads /etc/localtime: C18)'},
